@@ -191,7 +191,7 @@ def worker(item: Any, res: runner.Result) -> None:  # pylint: disable=too-many-l
     # gtxn_context(i) is empty when i is impossible (O2 on the index dimension)
     solver = abstract.Solver(case.g)
     multi = solver.multi_context_blocks()
-    ex_i, ci_i, _ = solver.exact_sets(abstract.IndexDim())
+    _, _, ex_i, ci_i, _ = solver.bracket_sets(abstract.IndexDim())
     res.count("o2_states", solver.states)
     res.count("o2_transitions", solver.transitions)
     if mode != "shuffle":
